@@ -11,6 +11,7 @@ Each theorem discharges the precondition of one unchecked / panicking operation 
 import ChessVerif.Props.C06
 import ChessVerif.Props.C08
 import ChessVerif.Props.C17
+import ChessVerif.Proofs.Legal.Reach
 
 namespace Chess.Props.C07
 open Chess
@@ -66,5 +67,35 @@ theorem parsed_kingSq_ok (s : List Byte) (b : Board) (h : Fen.parseFen s = .ok b
 /-- the saturating clock increment never leaves `u16` -/
 theorem satAdd16_le (a b : Nat) : satAdd16 a b ≤ 65535 := by
   unfold satAdd16; split <;> omega
+
+/-- **the fixed-capacity move list never overflows**: on every well-formed board `collect_moves`
+pushes at most 18 entries (≤ 16 men, one entry each, plus at most two en-passant entries), for every
+destination mask — `push_unchecked` on `ArrayVec<_, 18>` has its precondition -/
+theorem moveList_capacity (b : Board) (h : b.WF = true) (mask : BB) :
+    (b.collectMoves mask).length ≤ Gen.Consts.moveListCapacity := by
+  have hp := AbsL.wf_partition b h
+  have hk := AbsL.wf_hasKings b h
+  have hc := AbsL.wf_counts b h
+  apply Entries.collectMoves_length_le b hp
+  · unfold RawBoard.hasKings at hk
+    simp only [Bool.and_eq_true, beq_iff_eq] at hk
+    cases hb : b.turn
+    · simpa [RawBoard.color] using hk.1.2
+    · simpa [RawBoard.color] using hk.2
+  · cases hb : b.turn
+    · simpa [RawBoard.color] using hc.1
+    · simpa [RawBoard.color] using hc.2
+
+/-- `check_mask`'s `assert_eq!` holds at every call site of `collect_moves` -/
+theorem checkMask_assert_ok (b : Board) :
+    (BB.none b.checkers = true → b.checkMaskOk false = true) ∧
+    (BB.none b.checkers = false → BB.count b.checkers = 1 → b.checkMaskOk true = true) :=
+  Entries.collect_checkMask_ok b
+
+/-- all of the above hold for every position reachable by legal play (well-formedness is invariant) -/
+theorem reachable_preconditions (b₀ b : Board) (h₀ : b₀.WF = true) (hr : Board.Reachable b₀ b) (mask : BB) (c : Color) :
+    (b.collectMoves mask).length ≤ Gen.Consts.moveListCapacity ∧ (b.kingSq? c).isSome = true ∧ b.castle < 16 := by
+  have hw := Legal.reachable_WF b₀ b h₀ hr
+  exact ⟨moveList_capacity b hw mask, kingSq_ok b (AbsL.wf_hasKings b hw) c, AbsL.wf_castle b hw⟩
 
 end Chess.Props.C07
